@@ -21,9 +21,11 @@ var Tags = []string{"v1", "latest", "v1.0", "Z9-x", "a_b"}
 
 // PoolMan is one manifest of the pool.
 type PoolMan struct {
+	Name      string // M0.. (position in the full pool)
 	MediaType string
 	Body      []byte
 	Digest    string
+	NeedDesc  bool // the manifest object must be built with an explicit descriptor (non canonical digest algorithm / no mediaType field)
 }
 
 // Pool is the manifest pool plus the blobs the manifests reference.
@@ -32,7 +34,28 @@ type Pool struct {
 	Blobs map[string][]byte
 }
 
-var pool = buildPool()
+// fullPool is the whole universe (9 manifests); pool is the view of the case
+// being executed: 5 of them (M0 and M1 always), so that the per-step
+// verification cost does not depend on the size of the universe.
+var fullPool = buildPool()
+var pool = viewPool(nil)
+
+// DefaultPool is the pool of cases saved before the universe was extended.
+var DefaultPool = []int{0, 1, 2, 3, 4}
+
+func viewPool(idx []int) *Pool {
+	if len(idx) != 5 {
+		idx = DefaultPool
+	}
+	p := &Pool{Blobs: fullPool.Blobs}
+	for _, i := range idx {
+		if i < 0 || i >= len(fullPool.Mans) {
+			i = 0
+		}
+		p.Mans = append(p.Mans, fullPool.Mans[i])
+	}
+	return p
+}
 
 func desc(mt, dig string, size int, extra string) string {
 	return fmt.Sprintf(`{"mediaType":%q,"digest":%q,"size":%d%s}`, mt, dig, size, extra)
@@ -56,7 +79,7 @@ func buildPool() *Pool {
 	dc0, dc1, dc2 := blob(c0), blob(c1), blob(c2)
 
 	add := func(mt string, body string) PoolMan {
-		m := PoolMan{MediaType: mt, Body: []byte(body), Digest: rm.Digest("sha256", []byte(body))}
+		m := PoolMan{Name: fmt.Sprintf("M%d", len(p.Mans)), MediaType: mt, Body: []byte(body), Digest: rm.Digest("sha256", []byte(body))}
 		p.Mans = append(p.Mans, m)
 		return m
 	}
@@ -76,6 +99,20 @@ func buildPool() *Pool {
 	// M4: Docker manifest list over M2
 	add(rm.MTDocker2List, fmt.Sprintf(`{"schemaVersion":2,"mediaType":%q,"manifests":[%s]}`, rm.MTDocker2List,
 		desc(m2.MediaType, m2.Digest, len(m2.Body), `,"platform":{"architecture":"amd64","os":"linux"}`)))
+	// M5: OCI image addressed by a sha512 digest (regctl image mod --digest-algo sha512 produces such manifests)
+	m5 := add(rm.MTOCIManifest, fmt.Sprintf(`{"schemaVersion":2,"mediaType":%q,"config":%s,"layers":[%s],"annotations":{"org.example.c06":"m5-sha512"}}`, rm.MTOCIManifest,
+		desc(rm.MTOCIConfig, dc0, len(c0), ""), desc(rm.MTOCILayerGzip, dA, len(layerA), "")))
+	p.Mans[len(p.Mans)-1].Digest = rm.Digest("sha512", m5.Body)
+	p.Mans[len(p.Mans)-1].NeedDesc = true
+	// M6: OCI artifact manifest (the deprecated artifact media type)
+	add(rm.MTOCIArtifact, fmt.Sprintf(`{"mediaType":%q,"artifactType":"application/vnd.example.sbom","blobs":[%s]}`, rm.MTOCIArtifact,
+		desc("application/octet-stream", dC, len(layerC), "")))
+	// M7: unsigned Docker schema1 manifest (no mediaType field by definition)
+	add(rm.MTDocker1, fmt.Sprintf(`{"schemaVersion":1,"name":"proj/app","tag":"latest","architecture":"amd64","fsLayers":[{"blobSum":%q}],"history":[{"v1Compatibility":"{\"id\":\"0\",\"created\":\"2020-01-01T00:00:00Z\"}"}]}`, dC))
+	// M8: OCI image whose body has no mediaType field (valid OCI 1.0)
+	add(rm.MTOCIManifest, fmt.Sprintf(`{"schemaVersion":2,"config":%s,"layers":[%s]}`,
+		desc(rm.MTOCIConfig, dc1, len(c1), ""), desc(rm.MTOCILayerGzip, dB, len(layerB), "")))
+	p.Mans[len(p.Mans)-1].NeedDesc = true
 	return p
 }
 
@@ -90,8 +127,10 @@ func manIndex(d string) int {
 }
 
 func manName(d string) string {
-	if i := manIndex(d); i >= 0 {
-		return fmt.Sprintf("M%d", i)
+	for _, m := range fullPool.Mans {
+		if m.Digest == d {
+			return m.Name
+		}
 	}
 	if d == "" {
 		return "-"
